@@ -149,6 +149,7 @@ int main(int argc, char **argv) {
     std::string mode = argc > 1 ? argv[1] : "";
     std::string scen, planfile;
     uint64_t base = 1, first = 0, count = 1, seed = 0;
+    std::vector<uint64_t> index_list;   // explicit run indices (process-history replays): executed in this order in this one process
     int samples = 3;
     Op opts; opts.kind = "opts";
     for (int i = 2; i < argc; i++) {
@@ -158,6 +159,7 @@ int main(int argc, char **argv) {
         else if (a == "--seed-base") base = strtoull(next().c_str(), 0, 0);
         else if (a == "--first") first = strtoull(next().c_str(), 0, 0);
         else if (a == "--count") count = strtoull(next().c_str(), 0, 0);
+        else if (a == "--list") { std::string v = next(), tok; std::istringstream is(v); while (std::getline(is, tok, ',')) if (!tok.empty()) index_list.push_back(strtoull(tok.c_str(), 0, 0)); }
         else if (a == "--seed") seed = strtoull(next().c_str(), 0, 0);
         else if (a == "--plan") planfile = next();
         else if (a == "--samples") samples = atoi(next().c_str());
@@ -188,7 +190,9 @@ int main(int argc, char **argv) {
     if (mode == "gen") { Plan p = s->gen(seed, opts); finalize_plan(p, opts, seed); fputs(p.str().c_str(), stdout); return 0; }
     if (mode != "run") { fprintf(stderr, "usage: dsim run|gen|replay|list ...\n"); return 2; }
     int viol = 0;
-    for (uint64_t i = first; i < first + count; i++) {
+    if (index_list.empty()) for (uint64_t i = first; i < first + count; i++) index_list.push_back(i);
+    for (size_t li = 0; li < index_list.size(); li++) {
+        uint64_t i = index_list[li];
         uint64_t sd = mix64(base, i);
         printf("BEGIN %llu\n", (unsigned long long) sd); fflush(stdout);
         opts.setu("run_index", i);
@@ -203,7 +207,7 @@ int main(int argc, char **argv) {
                 RunResult r;
                 apply_perturb(p);
                 exec_maybe_in_thread(s, p, r);
-                printf("%s\n", result_line(sd, p, r, (int) (i - first) < samples, (int) (i - first) < samples).c_str());
+                printf("%s\n", result_line(sd, p, r, (int) li < samples, (int) li < samples).c_str());
                 fflush(stdout);
                 _exit(r.v.set ? 1 : 0);
             }
@@ -222,7 +226,7 @@ int main(int argc, char **argv) {
         apply_perturb(p);
         exec_maybe_in_thread(s, p, r);
         if (r.v.set) viol++;
-        printf("%s\n", result_line(sd, p, r, (int) (i - first) < samples, (int) (i - first) < samples).c_str());
+        printf("%s\n", result_line(sd, p, r, (int) li < samples, (int) li < samples).c_str());
         fflush(stdout);
         if (r.v.set && r.v.cls == "leak") {   // leaked blocks would be reported again by every later leak check of this process
             printf("RESTART\n"); fflush(stdout); _exit(0);
